@@ -134,6 +134,11 @@ class BatchProcessor:
         # Remove padding if needed
         if self.n_pad > 0:
             return results[: -self.n_pad]
+        if len(results.devices()) > 1:
+            # Nothing is sliced off without padding, so the flattened results are
+            # still sharded across devices and cannot be broadcast to every device
+            # by the next pmap call; gather them onto a single device first
+            results = jax.device_put(results, jax.local_devices()[0])
         return results
 
     @property
